@@ -4,9 +4,10 @@
 //!
 //!   standin <mode> [repo]            search; prints one JSON line: {"kind":"standin",...} or {"kind":"none","cases":N}
 //!   standin --replay '<json>'        re-runs the recorded case; exit 1 = reproduced
-//! modes: ident (C02)  dec (C05)  wf (C06)  consist (C07)  thr (C09)  iter (C15)  orule (C18)  ncase (C11)
+//! modes: ident, stream (C02)  dec (C05)  wf (C06)  consist (C07)  thr (C09)  iter (C15)  orule (C18)  ncase (C11)
 use std::panic::{catch_unwind, AssertUnwindSafe};
-use text2num::{find_numbers, find_numbers_iter, replace_numbers_in_text, text2digits, Language, Occurence, Token};
+use text2num::word_to_digit::Replace;
+use text2num::{find_numbers, find_numbers_iter, replace_numbers_in_stream, replace_numbers_in_text, text2digits, Language, Occurence, Token};
 
 const LANGS: [&str; 7] = ["en", "fr", "es", "pt", "it", "de", "nl"];
 
@@ -46,6 +47,37 @@ impl Token for Tok {
     }
     fn not_a_number_part(&self) -> bool {
         self.nan
+    }
+}
+
+/// a token that remembers which input words it was made from (stream rewriting must keep or hand over every token exactly once)
+#[derive(Clone, Debug)]
+struct Prov {
+    text: String,
+    lower: String,
+    src: Vec<String>,
+}
+impl Token for &Prov {
+    fn text(&self) -> &str {
+        &self.text
+    }
+    fn text_lowercase(&self) -> &str {
+        &self.lower
+    }
+    fn nt_separated(&self, _previous: &Self) -> bool {
+        false
+    }
+    fn not_a_number_part(&self) -> bool {
+        false
+    }
+}
+impl Replace for Prov {
+    fn replace<I: Iterator<Item = Self>>(replaced: I, data: String) -> Self {
+        let mut src = Vec::new();
+        for t in replaced {
+            src.extend(t.src);
+        }
+        Prov { lower: data.to_lowercase(), text: data, src }
     }
 }
 
@@ -163,6 +195,39 @@ fn cases(mode: &str) -> Vec<Case> {
                             } else {
                                 None
                             }
+                        }),
+                    });
+                }
+            }
+        }
+        // C02 on streams: every input token is kept, or handed to Replace::replace, exactly once and in order
+        "stream" => {
+            for (code, phrase) in streams() {
+                for th in [0.0f64, 10.0] {
+                    let (c, p) = (code.to_string(), phrase.replace(['|', '!'], ""));
+                    out.push(Case {
+                        descr: serde_json::json!({"mode":"stream","lang":code,"tokens":phrase,"threshold":th}),
+                        run: guard(move || {
+                            let l = lang(&c);
+                            let input: Vec<Prov> = p.split_whitespace().map(|w| Prov { text: w.to_string(), lower: w.to_lowercase(), src: vec![w.to_string()] }).collect();
+                            let words: Vec<String> = input.iter().map(|t| t.text.clone()).collect();
+                            let occ = find_numbers(input.iter(), &l, th);
+                            let outv = replace_numbers_in_stream(input, &l, th);
+                            let handed: Vec<String> = outv.iter().flat_map(|t| t.src.clone()).collect();
+                            if handed != words {
+                                return Some(format!("input words {:?} but the output tokens account for {:?}", words, handed));
+                            }
+                            // reference splice from the occurrences
+                            let mut want: Vec<String> = Vec::new();
+                            let mut i = 0;
+                            for o in &occ {
+                                while i < o.start { want.push(words[i].clone()); i += 1; }
+                                want.push(o.text.clone());
+                                i = o.end;
+                            }
+                            while i < words.len() { want.push(words[i].clone()); i += 1; }
+                            let got: Vec<String> = outv.iter().map(|t| t.text.clone()).collect();
+                            if got != want { Some(format!("output texts {:?}, expected {:?}", got, want)) } else { None }
                         }),
                     });
                 }
